@@ -369,6 +369,10 @@ def run_sched(pid, spec, tier, seed, work, t0, no_prove):
             for i in range(12 if tier == "quick" else 60):
                 n = (2, 3, 4, 8)[i % 4]
                 r = subprocess.run(["timeout", "120", th, "coldstart", str(seed * 100 + i), str(n)], env=e, stdout=subprocess.PIPE, stderr=subprocess.PIPE, text=True)
+                if r.returncode == 124 and "ThreadSanitizer" not in r.stderr:
+                    # the run did not finish in time on this machine: inconclusive, recorded, not an alarm
+                    tsan_note["coldstart_timeouts"] = tsan_note.get("coldstart_timeouts", 0) + 1
+                    continue
                 if "ThreadSanitizer" in r.stderr or r.returncode != 0:
                     tsan_bad = {"seed": seed * 100 + i, "threads": n, "iters": 0, "rc": r.returncode, "report": r.stderr[-4000:], "mode": "coldstart"}
                     break
